@@ -31,15 +31,33 @@ def work(args):
         return idx, "failed", t, txt
     return idx, "undecided", t, ""
 
-def ALL(b):
-    import kernels
-    obls = kernels.build_obligations(b)
+def build_task(args):
+    """Build one group of obligations in a worker; returns serialisable records (goal as SMT-LIB text)."""
+    binpath, mod, fn, kw = args
+    import importlib, traceback
+    from disasm import Binary
+    from z3 import Solver, Not
     try:
-        import kernels2
-        obls += kernels2.build_obligations(b)
-    except ImportError:
-        pass
-    return obls
+        b = Binary(binpath)
+        obls = getattr(importlib.import_module(mod), fn)(b, **kw)
+    except Exception as e:
+        return {"error": "%s.%s%s: %s: %s" % (mod, fn, kw, type(e).__name__, str(e)[:500]), "trace": traceback.format_exc()[-1500:], "obls": [], "insns": 0}
+    out = []
+    for o in obls:
+        sv = Solver()
+        for h in o.hyps:
+            sv.add(h)
+        sv.add(Not(o.goal))
+        out.append({"kernel": o.kernel, "name": o.name, "props": o.props, "note": getattr(o, "note", ""), "smt2": sv.to_smt2()})
+    return {"obls": out, "insns": len(b.insns)}
+
+def all_tasks(prop=""):
+    import kernels, kernels2, kernels3
+    out = []
+    for m in (kernels, kernels2, kernels3):
+        if not prop or prop in m.TASK_PROPS:
+            out += m.tasks()
+    return out
 
 def main():
     ap = argparse.ArgumentParser()
@@ -48,41 +66,39 @@ def main():
     ap.add_argument("--only", default="")
     ap.add_argument("--scratch", default="")
     ap.add_argument("--timeout", type=int, default=60)
-    ap.add_argument("-j", type=int, default=12)
+    ap.add_argument("-j", type=int, default=14)
+    ap.add_argument("--prop", default="", help="only build the kernels serving this property")
+    ap.add_argument("--skip", default="", help="JSON file with a list of obligation ids not to solve (residuals)")
     a = ap.parse_args()
     t0 = time.time()
     scratch = a.scratch or tempfile.mkdtemp(prefix="asmvc.", dir="/var/tmp")
     res = {"engine": "asmvc", "obligations": [], "errors": []}
     try:
         binpath = build_binary(a.repo, scratch)
-        from disasm import Binary
-        b = Binary(binpath)
-        try:
-            obls = ALL(b)
-        except Exception as e:
-            import traceback
-            res["errors"].append("asmvc: %s: %s" % (type(e).__name__, e))
-            res["trace"] = traceback.format_exc()[-3000:]
-            obls = []
-        sel = [i for i, o in enumerate(obls) if not a.only or re.search(a.only, o.kernel + "/" + o.name)]
+        recs = []
+        with ProcessPoolExecutor(max_workers=a.j) as ex:
+            for r in ex.map(build_task, [(binpath,) + t for t in all_tasks(a.prop)]):
+                if r.get("error"):
+                    res["errors"].append("asmvc: " + r["error"])
+                    res["trace"] = r.get("trace", "")
+                recs += r["obls"]
+                res["instructions"] = max(res.get("instructions", 0), r.get("insns", 0))
+        skip = set(json.load(open(a.skip))) if a.skip else set()
+        sel = [i for i, o in enumerate(recs) if (not a.only or re.search(a.only, o["kernel"] + "/" + o["name"]))
+               and ("asmvc/%s/%s" % (o["kernel"], o["name"])) not in skip]
+        res["skipped_residuals"] = len(recs) - len(sel) if skip else 0
         results = {}
         with ProcessPoolExecutor(max_workers=a.j) as ex:
-            from z3 import Solver, Not
-            jobs = []
-            for i in sel:
-                sv = Solver()
-                for h in obls[i].hyps:
-                    sv.add(h)
-                sv.add(Not(obls[i].goal))
-                jobs.append((i, sv.to_smt2(), a.timeout * 1000))
-            for idx, status, t, model in ex.map(work, jobs):
+            for idx, status, t, model in ex.map(work, [(i, recs[i]["smt2"], a.timeout * 1000) for i in sel]):
                 results[idx] = (status, t, model)
         for i in sel:
-            o = obls[i]
+            o = recs[i]
             st, t, model = results[i]
-            res["obligations"].append({"id": "asmvc/%s/%s" % (o.kernel, o.name), "kernel": o.kernel, "name": o.name, "props": o.props,
+            if o["note"] and st != "discharged":
+                model = o["note"] + "\n" + model
+            res["obligations"].append({"id": "asmvc/%s/%s" % (o["kernel"], o["name"]), "kernel": o["kernel"], "name": o["name"], "props": o["props"],
                                        "status": st, "time_s": round(t, 3), "model": model[:6000], "backend": "z3-5.1-api"})
-        res["instructions"] = len(b.insns)
+
     except Exception as e:
         res["errors"].append("asmvc: %s: %s" % (type(e).__name__, e))
     finally:
